@@ -167,7 +167,7 @@ func (w *watchdog) monitor() {
 		final := age2 >= lalclient.DeliverTimeout
 		if len(ws) > 0 && (final || (s1.activeLal == 0 && s2.activeLal == 0)) {
 			var b strings.Builder
-			fmt.Fprintf(&b, "call %q has not returned after %v; %d goroutine(s) are parked on a mutex taken by lal code with the same stack in two samples %v apart (goroutines executing inside lal: %d / %d):\n",
+			fmt.Fprintf(&b, "call %q has not returned after %v; %d goroutine(s) are parked inside lal (mutex wait, or a channel / select / WaitGroup / Cond wait of a call the harness made) with the same stack in two samples %v apart (goroutines executing inside lal: %d / %d):\n",
 				desc, age2.Round(time.Second), len(ws), sampleGap, s1.activeLal, s2.activeLal)
 			for _, g := range ws {
 				b.WriteString(g.Text + "\n\n")
@@ -176,7 +176,7 @@ func (w *watchdog) monitor() {
 			finish(verdict{Sig: deadlockSig(ws), Detail: b.String()})
 		}
 		if final {
-			harnessFail("call %q has not returned after %v, but no goroutine is parked on a lal mutex in two samples (slow machine?)\n%s", desc, age2, clip(d2, 20000))
+			harnessFail("call %q has not returned after %v, but no goroutine is parked inside lal with the same stack in two samples (slow machine?)\n%s", desc, age2, clip(d2, 20000))
 		}
 	}
 }
@@ -189,6 +189,9 @@ type world struct {
 	s      *inproc.Server
 	origin *stub.RtmpStub
 	wd     *watchdog
+
+	rtspOrigin *rtspOrigin
+	notify     *notifySink
 
 	hlsH    *hls.ServerHandler // L2: a handler of our own with the manager as observer
 	hlsAddr string             // L3: the manager's HLS listener
@@ -216,30 +219,6 @@ func (w *world) name(op Op, wi, oi int) string {
 // call runs an API call on the manager; a panic is recorded by inproc (checked at the end of the repetition).
 func (w *world) call(sl *slot, where string, f func()) {
 	sl.guard(where, func() { w.s.Call(where, f) })
-}
-
-var codecs = gen.Codecs{Video: "avc", Audio: "aac", AscObj: 2, AscFreq: 4, AscChan: 2}
-
-// mediaItem: vsh, ash, key frame, then audio / inter frames with a key frame every 4th message (HLS
-// fragments are 100 ms: every second key frame closes one) and a changed video
-// sequence header every 9th; 40 ms apart.
-func mediaItem(i int, seed uint32) gen.Item {
-	ts := uint32(i) * 40
-	switch {
-	case i == 0:
-		return gen.Item{Kind: "vsh"}
-	case i == 1:
-		return gen.Item{Kind: "ash"}
-	case i%9 == 8:
-		// the video sequence header changes in mid-stream (new parameter sets: the rtsp remuxer re-issues its sdp)
-		return gen.Item{Kind: "vsh", Ts: ts, Variant: 1 + (i/9)%2}
-	case i%4 == 2:
-		return gen.Item{Kind: "video", Ts: ts, Key: true, Nals: []gen.NalSpec{{Hdr: []byte{0x65}, Len: 60, Seed: seed + uint32(i), Serial: seed + uint32(i)}}}
-	case i%2 == 1:
-		return gen.Item{Kind: "audio", Ts: ts - 15, ALen: 24, ASeed: seed + uint32(i)}
-	default:
-		return gen.Item{Kind: "video", Ts: ts, Nals: []gen.NalSpec{{Hdr: []byte{0x41}, Len: 40, Seed: seed + uint32(i), Serial: seed + uint32(i)}}}
-	}
 }
 
 // ---- sessions a worker holds -------------------------------------------------------------------------------------
@@ -315,11 +294,12 @@ func (k *worker) do(oi int, op Op) {
 			return
 		}
 		count("rtmp-pub", 1)
+		cd := codecOf(w.c, op.Arg)
 		se := &session{kind: "pub", name: name}
 		se.send = func(n int, sl *slot) {
 			sl.guard("rtmp publisher sends", func() {
 				for i := 0; i < n; i++ {
-					if p.SendItem(mediaItem(se.sent, seed), codecs, 0) != nil {
+					if p.SendItem(mediaItem(se.sent, seed, cd), cd, 0) != nil {
 						return
 					}
 					se.sent++
@@ -333,58 +313,46 @@ func (k *worker) do(oi int, op Op) {
 	case "pub-rtsp":
 		conn := s.RtspConn()
 		rc := rtspref.NewClient(conn)
-		_, sps, pps := gen.ParamSets("avc", 0)
-		tracks := []rtspref.Track{{Media: "video", PT: 96, Encoding: "H264", ClockRate: 90000, Fmtp: rtspref.H264Fmtp(sps, pps), Control: "streamid=0"}}
-		if op.Arg%2 == 1 {
-			tracks = append(tracks, rtspref.Track{Media: "audio", PT: 97, Encoding: "MPEG4-GENERIC", ClockRate: 44100, Channels: 2, Fmtp: rtspref.AacFmtp(gen.Asc(2, 4, 2)), Control: "streamid=1"})
+		cd := codecOf(w.c, op.Arg)
+		if cd.Video == "" && cd.Audio != "aac" {
+			cd = codecSets[0]
 		}
+		udp := op.Arg%3 == 2 // RTP / RTCP over UDP: lal reads every track in goroutines of their own
+		var rp *rtspPub
 		var perr error
 		sl.guard("rtsp publish "+name, func() {
 			_ = conn.SetReadDeadline(time.Now().Add(lalclient.IdleTimeout))
-			_, perr = rc.Publish("rtsp://127.0.0.1:5544/"+app+"/"+name, tracks)
+			rp, perr = publishRtsp(rc, "rtsp://127.0.0.1:5544/"+app+"/"+name, cd, udp)
 			_ = conn.SetReadDeadline(time.Time{})
 		})
 		if perr != nil {
+			rp.close()
 			closeAndWait(sl, "refused rtsp publisher", conn)
 			return
 		}
 		count("rtsp-pub", 1)
+		if udp {
+			count("rtsp-pub-udp", 1)
+		}
 		se := &session{kind: "pub-rtsp", name: name}
 		se.send = func(n int, sl *slot) {
 			sl.guard("rtsp publisher sends", func() {
 				for i := 0; i < n; i++ {
 					j := se.sent
 					se.sent++
-					hdr := byte(0x41)
-					if j%5 == 0 {
-						hdr = 0x65
-					}
-					nal := gen.NalSpec{Hdr: []byte{hdr}, Len: 50, Seed: seed + uint32(j), Serial: seed + uint32(j)}.Bytes()
-					pl, _ := rtpref.H264Single(nal)
-					pk := &rtpref.Packet{PT: 96, Seq: uint16(j), TS: uint32(j) * 3600, SSRC: 0x11110000 + uint32(k.idx), Marker: true, Payload: pl}
-					if rc.WriteFrame(0, pk.Marshal()) != nil {
+					if rp.sendUnit(j, seed, k.idx) != nil {
 						return
 					}
-					if j%3 == 1 {
-						// sender report of the video track on its RTCP channel
-						sr := make([]byte, 28)
-						sr[0], sr[1], sr[3] = 0x80, 200, 6
-						sr[4], sr[5], sr[7] = 0x11, 0x11, byte(k.idx)
-						sr[8], sr[15] = byte(j), byte(j)
-						_ = rc.WriteFrame(1, sr)
-					}
-					if len(tracks) == 2 {
-						au := gen.Bytes(seed+uint32(j), 30)
-						if apl, err := rtpref.AACHbr.AACPacket([][]byte{au}); err == nil {
-							apk := &rtpref.Packet{PT: 97, Seq: uint16(j), TS: uint32(j) * 1024, SSRC: 0x22220000 + uint32(k.idx), Marker: true, Payload: apl}
-							_ = rc.WriteFrame(2, apk.Marshal())
-						}
-					}
 				}
-				conn.WaitPeerIdle(lalclient.DeliverTimeout)
+				if !udp {
+					conn.WaitPeerIdle(lalclient.DeliverTimeout)
+				}
 			})
 		}
-		se.leave = func(sl *slot) { closeAndWait(sl, "rtsp publisher", conn) }
+		se.leave = func(sl *slot) {
+			closeAndWait(sl, "rtsp publisher", conn)
+			rp.close()
+		}
 		se.send(2+op.Arg, sl)
 		k.open = append(k.open, se)
 	case "pub-cust":
@@ -395,12 +363,13 @@ func (k *worker) do(oi int, op Op) {
 			return
 		}
 		count("customize-pub", 1)
+		cd := codecOf(w.c, op.Arg)
 		se := &session{kind: "pub-cust", name: name}
 		se.send = func(n int, sl *slot) {
 			for i := 0; i < n; i++ {
-				it := mediaItem(se.sent, seed)
+				it := mediaItem(se.sent, seed, cd)
 				se.sent++
-				pl := it.Payload(codecs)
+				pl := it.Payload(cd)
 				msg := base.RtmpMsg{Header: base.RtmpHeader{Csid: 4, MsgLen: uint32(len(pl)), MsgTypeId: it.TypeID(), MsgStreamId: 1, TimestampAbs: it.Ts}, Payload: pl}
 				w.call(sl, "FeedRtmpMsg", func() { _ = ctx.FeedRtmpMsg(msg) })
 			}
@@ -427,6 +396,7 @@ func (k *worker) do(oi int, op Op) {
 		conn := s.RtspConn()
 		rc := rtspref.NewClient(conn)
 		uri := "rtsp://127.0.0.1:5544/" + app + "/" + name
+		var udpIO []rtspTrackIO
 		sl.guard("rtsp describe/setup/play "+name, func() {
 			// lal answers DESCRIBE only once the stream has a session description: a bounded patience, then the
 			// session stays attached in its waiting stage (a later publisher's OnSdp feeds it)
@@ -434,14 +404,21 @@ func (k *worker) do(oi int, op Op) {
 			r, err := rc.Describe(uri)
 			if err == nil && r != nil && r.Status == 200 && len(r.Body) > 0 {
 				_ = conn.SetReadDeadline(time.Now().Add(lalclient.IdleTimeout))
-				if rc.SetupPlay(uri, rtspref.SdpControls(r.Body)) == nil {
+				if op.Arg%3 == 1 {
+					if udpIO, err = playRtspUdp(rc, uri, rtspref.SdpControls(r.Body)); err == nil {
+						count("rtsp-sub-playing-udp", 1)
+					}
+				} else if rc.SetupPlay(uri, rtspref.SdpControls(r.Body)) == nil {
 					count("rtsp-sub-playing", 1)
 				}
 			}
 			_ = conn.SetReadDeadline(time.Time{})
 		})
 		count("rtsp-sub", 1)
-		k.open = append(k.open, &session{kind: op.Kind, name: name, leave: func(sl *slot) { closeAndWait(sl, "rtsp subscriber", conn) }})
+		k.open = append(k.open, &session{kind: op.Kind, name: name, leave: func(sl *slot) {
+			closeAndWait(sl, "rtsp subscriber", conn)
+			(&rtspPub{io: udpIO}).close()
+		}})
 	case "send":
 		for i := len(k.open) - 1; i >= 0; i-- {
 			if k.open[i].send != nil {
@@ -487,8 +464,13 @@ func (k *worker) do(oi int, op Op) {
 		w.call(sl, "StatLalInfo", func() { _ = s.SM.StatLalInfo() })
 	case "pull-start":
 		var resp base.ApiCtrlStartRelayPullResp
+		url := "rtmp://" + w.origin.Addr + "/" + app + "/" + name
+		if op.Arg >= 7 {
+			url = "rtsp://" + w.rtspOrigin.Addr + "/" + app + "/" + name // rtsp pull (interleaved) from the scripted rtsp origin
+			count("pull-rtsp", 1)
+		}
 		w.call(sl, "CtrlStartRelayPull", func() {
-			resp = s.SM.CtrlStartRelayPull(base.ApiCtrlStartRelayPullReq{Url: "rtmp://" + w.origin.Addr + "/" + app + "/" + name, StreamName: name,
+			resp = s.SM.CtrlStartRelayPull(base.ApiCtrlStartRelayPullReq{Url: url, StreamName: name,
 				PullTimeoutMs: 200, PullRetryNum: []int{0, 1, -1}[op.Arg%3], AutoStopPullAfterNoOutMs: []int{-1, -1, 0, 60}[op.Arg%4]})
 		})
 		if resp.ErrorCode == base.ErrorCodeSucc {
@@ -497,47 +479,69 @@ func (k *worker) do(oi int, op Op) {
 	case "pull-stop":
 		w.call(sl, "CtrlStopRelayPull", func() { _ = s.SM.CtrlStopRelayPull(name) })
 	case "rtp-pub":
-		// UDP: the only variant lal can tear down again (a TCP rtp pub never closes its listener)
+		tcp := op.Arg%3 == 2
 		var resp base.ApiCtrlStartRtpPubResp
 		w.call(sl, "CtrlStartRtpPub", func() {
-			resp = s.SM.CtrlStartRtpPub(base.ApiCtrlStartRtpPubReq{StreamName: name, Port: 0, TimeoutMs: []int{0, 1000}[op.Arg%2], IsTcpFlag: 0})
+			resp = s.SM.CtrlStartRtpPub(base.ApiCtrlStartRtpPubReq{StreamName: name, Port: 0, TimeoutMs: []int{0, 1000}[op.Arg%2], IsTcpFlag: map[bool]int{true: 1}[tcp]})
 		})
 		if resp.ErrorCode != base.ErrorCodeSucc {
-			return
+			return // refused: the stream has an input (or no port)
 		}
 		count("rtp-pub", 1)
 		id, port := resp.Data.SessionId, resp.Data.Port
+		video := codecOf(w.c, op.Arg).Video
+		if video == "" {
+			video = "avc"
+		}
+		var pc net.Conn
+		if tcp {
+			count("rtp-pub-tcp", 1)
+			sl.guard("rtp pub tcp connect", func() { pc, _ = net.DialTimeout("tcp", fmt.Sprintf("127.0.0.1:%d", port), 5*time.Second) })
+		} else {
+			pc, _ = net.Dial("udp", fmt.Sprintf("127.0.0.1:%d", port))
+		}
 		se := &session{kind: "rtp-pub", name: name}
 		se.send = func(n int, sl *slot) {
 			sl.guard("rtp pub sends", func() {
-				uc, err := net.Dial("udp", fmt.Sprintf("127.0.0.1:%d", port))
-				if err != nil {
+				if pc == nil {
 					return
 				}
-				defer uc.Close()
 				for i := 0; i < n; i++ {
 					j := se.sent
 					se.sent++
-					_, sps, pps := gen.ParamSets("avc", 0)
-					nal := gen.NalSpec{Hdr: []byte{0x65}, Len: 40, Seed: seed + uint32(j), Serial: seed + uint32(j)}.Bytes()
-					es := rtpref.AnnexB([][]byte{sps, pps, nal}, []bool{true, true, true})
+					vps, sps, pps := gen.ParamSets(video, 0)
+					nal := gen.NalSpec{Hdr: nalHdr(video, true), Len: 40, Seed: seed + uint32(j), Serial: seed + uint32(j)}.Bytes()
+					nals, st := [][]byte{sps, pps, nal}, uint8(0x1B)
+					if video == "hevc" {
+						nals, st = [][]byte{vps, sps, pps, nal}, 0x24
+					}
+					es := rtpref.AnnexB(nals, make([]bool, len(nals)))
 					pts := uint64(j) * 3600
 					ps := psref.PackHeader(pts, 0, 1000, 0)
-					streams := []psref.ES{{StreamID: 0xE0, StreamType: 0x1B}}
+					streams := []psref.ES{{StreamID: 0xE0, StreamType: st}}
 					if j == 0 {
 						ps = append(ps, psref.SystemHeader(1000, 0, 1, streams)...)
 						ps = append(ps, psref.PSM(0, nil, streams)...)
 					}
 					ps = append(ps, psref.PES(0xE0, psref.Stamp{HasPTS: true, PTS: pts}, 0, true, es)...)
-					pk := &rtpref.Packet{PT: 96, Seq: uint16(j), TS: uint32(pts), SSRC: 0x33330000 + uint32(k.idx), Marker: true, Payload: ps}
-					_, _ = uc.Write(pk.Marshal())
+					raw := (&rtpref.Packet{PT: 96, Seq: uint16(j), TS: uint32(pts), SSRC: 0x33330000 + uint32(k.idx), Marker: true, Payload: ps}).Marshal()
+					if tcp {
+						raw = append([]byte{byte(len(raw) >> 8), byte(len(raw))}, raw...)
+						_ = pc.SetWriteDeadline(time.Now().Add(5 * time.Second))
+					}
+					if _, err := pc.Write(raw); err != nil {
+						return
+					}
 				}
 			})
 		}
 		se.leave = func(sl *slot) {
 			w.call(sl, "CtrlKickSession(rtp pub)", func() { _ = s.SM.CtrlKickSession(base.ApiCtrlKickSessionReq{StreamName: name, SessionId: id}) })
+			if pc != nil {
+				_ = pc.Close()
+			}
 		}
-		se.send(2, sl)
+		se.send(2+op.Arg%4, sl)
 		k.open = append(k.open, se)
 	case "blacklist":
 		ip := []string{"127.0.0.1", "10.9.8.7", "127.0.0.2"}[op.Arg%3]
@@ -549,12 +553,9 @@ func (k *worker) do(oi int, op Op) {
 		}
 		k.hlsGet(name, op)
 	case "tick":
-		var g *logic.Group
-		w.call(sl, "GetGroup", func() { g = s.SM.GetGroup("", name) })
-		if g != nil {
-			n := w.tickN.Add(1)
-			w.call(sl, "Group.Tick", func() { g.Tick(n) })
-		}
+		// one iteration of the manager's tick loop (inactive groups are disposed and erased, the others ticked)
+		n := w.tickN.Add(1)
+		w.call(sl, "ServerManager.VerifTick", func() { s.SM.VerifTick(n) })
 	case "has":
 		var g *logic.Group
 		w.call(sl, "GetGroup", func() { g = s.SM.GetGroup("", name) })
@@ -562,7 +563,6 @@ func (k *worker) do(oi int, op Op) {
 			w.call(sl, "Group.Has*Session", func() {
 				_ = g.HasInSession()
 				_ = g.HasOutSession()
-				_ = g.IsInactive()
 				_ = g.OutSessionNum()
 				_ = g.IsHlsMuxerAlive()
 				_ = g.StringifyDebugStats(4)
@@ -645,6 +645,7 @@ func (w *world) serveOriginConn(c *stub.Conn) {
 		}
 		return
 	}
+	cd := codecOf(w.c, c.Index)
 	switch (c.Index + w.c.OriginMode) % 4 {
 	case 0:
 		return // refuse: close without answering play
@@ -656,8 +657,8 @@ func (w *world) serveOriginConn(c *stub.Conn) {
 			return
 		}
 		for i := 0; i < 6; i++ {
-			it := mediaItem(i, uint32(7000+c.Index*50))
-			if c.SendMedia(it.TypeID(), it.Ts, it.Payload(codecs)) != nil {
+			it := mediaItem(i, uint32(7000+c.Index*50), cd)
+			if c.SendMedia(it.TypeID(), it.Ts, it.Payload(cd)) != nil {
 				return
 			}
 		}
@@ -669,8 +670,8 @@ func (w *world) serveOriginConn(c *stub.Conn) {
 		}
 		count("pull-origin-streams", 1)
 		for i := 0; i < 8; i++ {
-			it := mediaItem(i, uint32(7000+c.Index*50))
-			if c.SendMedia(it.TypeID(), it.Ts, it.Payload(codecs)) != nil {
+			it := mediaItem(i, uint32(7000+c.Index*50), cd)
+			if c.SendMedia(it.TypeID(), it.Ts, it.Payload(cd)) != nil {
 				return
 			}
 		}
@@ -701,6 +702,20 @@ func (w *world) start() {
 		}
 		time.Sleep(100 * time.Millisecond)
 	}
+	for try := 0; ; try++ {
+		if w.rtspOrigin, err = newRtspOrigin(c.OriginMode); err == nil {
+			break
+		}
+		if try == 50 {
+			harnessFail("rtsp origin listen: %v", err)
+		}
+		time.Sleep(100 * time.Millisecond)
+	}
+	if c.Notify {
+		if w.notify, err = newNotifySink(c.NotifyDelayMs); err != nil {
+			harnessFail("notify sink listen: %v", err)
+		}
+	}
 	cfg := inproc.Config{RtmpGopNum: c.Gop, FlvGopNum: c.Gop, TsGopNum: c.Gop, RtmpMergeWrite: c.Merge, Hls: c.Hls, HlsFragmentMs: 100, HlsFragmentNum: 2,
 		HlsDeleteThreshold: 1, HlsCleanupMode: c.HlsCleanup, Hook: c.Hook, RecordFlv: c.Record, RecordTs: c.Record, DummyAudio: c.DummyAudio, DummyAudioWaitMs: 50}
 	if c.StaticPull {
@@ -716,11 +731,21 @@ func (w *world) start() {
 	cfg.Mod = func(lc *logic.Config) {
 		lc.HlsConfig.SubSessionHashKey = "c20key"
 		lc.HlsConfig.SubSessionTimeoutMs = 1000
+		if w.notify != nil {
+			lc.HttpNotifyConfig = w.notify.config(1)
+		}
 		if port != 0 {
 			lc.HlsConfig.HttpListenAddr = fmt.Sprintf("127.0.0.1:%d", port)
 		}
 	}
 	w.s = inproc.New(cfg)
+	if w.notify != nil {
+		// lal's own notify path (HttpNotify: queue + posting goroutine) instead of the harness recorder
+		if err := useLalHttpNotify(w.s.SM); err != nil {
+			harnessFail("cannot enable lal's http notify: %v", err)
+		}
+		count("lal-http-notify", 1)
+	}
 	if c.Hls && port == 0 {
 		// the same handler type the manager creates for its HLS listener, with the manager as its observer
 		w.hlsH = hls.NewServerHandler(w.s.Cfg.HlsConfig.OutPath, "/hls/", "c20key", 1000, w.s.SM)
@@ -790,6 +815,13 @@ func (w *world) runRep() {
 				continue
 			}
 			n := w.tickN.Add(1)
+			if w.c.TickMode == 0 || (w.c.TickMode == 1 && i%2 == 0) {
+				// what RunLoop's ticker does: inactive groups are disposed and erased, the others ticked, under the
+				// manager lock — so that group erasure races with admissions / API calls on the same name
+				w.call(tsl, "ServerManager.VerifTick (ticker)", func() { s.SM.VerifTick(n) })
+				count("manager-ticks", 1)
+				continue
+			}
 			for ni := 0; ni < w.c.Names; ni++ {
 				var g *logic.Group
 				nm := fmt.Sprintf("c20s%d", ni)
@@ -837,6 +869,10 @@ func (w *world) runRep() {
 	fsl := w.wd.newSlot()
 	fsl.guard("harness session goroutines end after Dispose", func() {
 		w.origin.Close()
+		w.rtspOrigin.Close()
+		if w.notify != nil {
+			w.notify.Close()
+		}
 		<-originDone
 		if !s.WaitSessions(lalclient.DeliverTimeout) {
 			harnessFail("session goroutines still running %v after everything was closed and the watchdog found no lal mutex waiters", lalclient.DeliverTimeout)
@@ -881,6 +917,9 @@ func childMain(casePath string) {
 	}
 	if c.Names < 1 || len(c.Workers) == 0 || c.TickUs < 1 {
 		harnessFail("malformed case")
+	}
+	if !raceDetectorOn {
+		harnessFail("the child runs WITHOUT the race detector (test binary not built with -race): the main oracle of C20 is off")
 	}
 	// sweeps of idle sessions every 3rd tick, pushes give up quickly
 	base.LogicCheckSessionAliveIntervalSec = 3
